@@ -255,3 +255,57 @@ pub fn simple_strip_model(input: &[u8]) -> Option<Vec<u8>> {
     }
     Some(out)
 }
+
+/// Does the input contain a control byte (C0, ESC, DEL) directly after an *incomplete* multi-byte
+/// UTF-8 prefix (a lead byte followed by fewer continuation bytes than it announces)?  What the
+/// byte stripper does with that control byte is C01's subject (DESIGN.md section 8), so the
+/// absolute "no control byte reaches the inner writer" invariant is not evaluated for such inputs.
+pub fn control_after_incomplete_char(input: &[u8]) -> bool {
+    for (i, b) in input.iter().enumerate() {
+        if !(*b < 0x20 || *b == 0x7f) || i == 0 {
+            continue;
+        }
+        let mut j = i;
+        let mut conts = 0usize;
+        while j > 0 && conts < 3 && (0x80..=0xbf).contains(&input[j - 1]) {
+            j -= 1;
+            conts += 1;
+        }
+        if j > 0 {
+            let need = match input[j - 1] {
+                0xc0..=0xdf => 2,
+                0xe0..=0xef => 3,
+                0xf0..=0xff => 4,
+                _ => 0,
+            };
+            if need > conts + 1 {
+                return true;
+            }
+        }
+    }
+    false
+}
+
+/// First byte in `out` that may never reach the inner writer of a stripping stream: ESC, DEL or a
+/// C0 control other than HT LF FF CR.
+pub fn first_control_byte(out: &[u8]) -> Option<(usize, u8)> {
+    out.iter().copied().enumerate().find(|(_, b)| *b == 0x7f || (*b < 0x20 && !matches!(*b, 9 | 10 | 12 | 13)))
+}
+
+/// Wait for a child process, but not for ever: `None` if it had to be killed after `secs` seconds.
+pub fn wait_with_deadline(child: &mut std::process::Child, secs: u64) -> Option<std::process::ExitStatus> {
+    let deadline = std::time::Instant::now() + std::time::Duration::from_secs(secs);
+    loop {
+        match child.try_wait() {
+            Ok(Some(st)) => return Some(st),
+            Ok(None) => {}
+            Err(_) => return None,
+        }
+        if std::time::Instant::now() >= deadline {
+            let _ = child.kill();
+            let _ = child.wait();
+            return None;
+        }
+        std::thread::sleep(std::time::Duration::from_millis(20));
+    }
+}
